@@ -11,6 +11,7 @@ const (
 	kAssignOnly = "assignonly" // value expression that is an ERROR only inside an assignment (panics elsewhere)
 	kCond       = "cond"       // usable only as a condition (non-bool condition: currently panics)
 	kRange      = "range"      // target name of a forRange header
+	kStmt       = "stmt"       // a whole statement with a block of its own (never inside conc, never in a for header)
 )
 
 // Classes. Must-cite classes come from the property statement ("arithmetic faults, comparison
@@ -28,6 +29,7 @@ const (
 	ClContainer  = "container" // may cite (container element reads)
 	ClForRange   = "forrange"  // may cite (forRange target)
 	ClCond       = "cond"      // may cite (non-bool condition)
+	ClLoop       = "loop"      // may cite (a for loop cut off by the iteration bound)
 )
 
 var mustCite = map[string]bool{ClArith: true, ClCmp: true, ClLogic: true, ClCall: true, ClAssign: true, ClElemAssign: true}
@@ -100,15 +102,16 @@ var catalog = []template{
 	{ClForRange, "not_iterable", kRange, []string{`Num`, `Obj.I`, `Z.Yes`}},
 	{ClForRange, "missing_target", kRange, []string{`nosuchvar`, `ghost`}},
 	{ClCond, "nonbool", kCond, []string{`5`, `Obj.S`, `"a"`, `Obj.I + 1`, `two(1, 2)`}},
+	{ClLoop, "guard", kStmt, []string{`for gi = 0; gi < 1; gi += 0 { gz = 1 }`, `for gj = 5; gj > 1; gj = 5 { gz = gj }`, `for gk = 0; gk >= 0; gk += 1 { if gk > 3 { continue } }`}},
 }
 
 // class weights (must-cite classes dominate).
 var classWeight = map[string]int{
 	ClArith: 5, ClCmp: 3, ClLogic: 3, ClCall: 5, ClAssign: 4, ClElemAssign: 3,
-	ClLookup: 2, ClContainer: 2, ClForRange: 1, ClCond: 1,
+	ClLookup: 2, ClContainer: 2, ClForRange: 1, ClCond: 1, ClLoop: 1,
 }
 
-var classOrder = []string{ClArith, ClCmp, ClLogic, ClCall, ClAssign, ClElemAssign, ClLookup, ClContainer, ClForRange, ClCond}
+var classOrder = []string{ClArith, ClCmp, ClLogic, ClCall, ClAssign, ClElemAssign, ClLookup, ClContainer, ClForRange, ClCond, ClLoop}
 
 var byClass = func() map[string][]int {
 	m := map[string][]int{}
@@ -172,7 +175,7 @@ func pickCarrier(r *rand.Rand, f Fault) string {
 	switch f.Kind {
 	case kRange:
 		return CarRangeHdr
-	case kAssignOnly:
+	case kAssignOnly, kStmt:
 		return CarPlain
 	case kCond:
 		c := carriersFor(kCond)
